@@ -140,6 +140,16 @@ def run(ctx, facts):
     if "rayon" in feats:
         ctx.set_floor("V3", 8, "8 impl methods + closures in rayon_impls.rs")
         rb_all = [b for b in facts.bodies if file_of(b).endswith("rayon_impls.rs")]
+        from .rules_c17 import inserting
+        inserting_ids = {b.id for b, _, _ in inserting(facts)[0]}
+        n_ins = 0
+        for b in rb_all:
+            for c in b.calls:
+                tb = facts.by_id.get(c.resolved)
+                if tb is not None and tb.id in inserting_ids and tb.name == "insert" and not file_of(tb).endswith("rayon_impls.rs"):
+                    n_ins += 1
+        if n_ins < 1:
+            ctx.fail_closed("V3: no call of the public insert found in rayon_impls.rs")
         for b in rb_all:
             bad = []
             n = 0
@@ -156,6 +166,10 @@ def run(ctx, facts):
                     continue
                 if not tb.exported:
                     bad.append((c, "calls crate-private %s" % strip_generics(tb.id)))
+                elif tb.id in inserting_ids and tb.name != "insert":
+                    # parallel extend/collect must mean "insert every item": the same operation sequential insertion performs
+                    bad.append((c, "puts items into the map through %s instead of insert: an item no longer replaces the value already stored for its "
+                                   "key, so parallel extend differs from inserting the same items sequentially" % strip_generics(tb.id)))
             # for_each_init closures capture the same map
             clos = []
             for bi, blk in enumerate(b.blocks):
